@@ -80,7 +80,7 @@ def build_job(job, wd):
     t0 = time.time()
     with LL2C_LOCK:
         try:
-            ll2c.OPTS['narrow'] = job.get('narrow', 0); ll2c.OPTS['noop'] = job.get('noop', []); ll2c.OPTS['unreachable'] = job.get('unreachable', []); ll2c.OPTS['unreachable_def'] = job.get('unreachable_def', [])
+            ll2c.OPTS['narrow'] = job.get('narrow', 0); ll2c.OPTS['noop'] = job.get('noop', []); ll2c.OPTS['unreachable'] = job.get('unreachable', []); ll2c.OPTS['unreachable_def'] = job.get('unreachable_def', []); ll2c.OPTS['frame_stores'] = bool(job.get('frame_stores'))
             mod = ll2c.parse_module(open(ll).read())
             roots = job.get('roots') or [n for n in mod.forder if not re.match(r'@_Z|@__|@_GLOBAL', n)]
             csrc, ext = ll2c.translate(mod, roots)
@@ -387,6 +387,8 @@ def do_job(prop, job, tier, seed, keep):
         if r['violations']: r['status'] = 'VIOLATION'
     except Inconclusive as e:
         r['status'] = 'INCONCLUSIVE'; r['reason'] = str(e)
+    except Exception as e:      # a failure of the machinery itself (e.g. OSError from the tool invocation) is never a pass
+        r['status'] = 'INCONCLUSIVE'; r['reason'] = 'driver error: %s: %s' % (type(e).__name__, str(e)[:300])
     r['wall_s'] = round(time.time() - t0, 1)
     if not keep and r['status'] == 'PASS':
         for f in ('twin', 'real', 'real_unit.o', 'h.o', 'm.o'):
